@@ -1,6 +1,7 @@
 (* C20 - Windows command lines and MSBuild solutions are well-formed and stable.
    Only statements; proofs live in theories/. *)
-From BFG Require Import Base.Chars Shell.WinQuote Shell.Msvcrt Shell.WinQuoteProofs Shell.WinSplit Shell.WinSplitProofs State.Uuid State.UuidProofs.
+From BFG Require Import Base.Chars Shell.WinQuote Shell.Msvcrt Shell.WinQuoteProofs Shell.WinSplit Shell.WinSplitProofs Shell.WinSplitExact
+  State.Uuid State.UuidProofs.
 Local Open Scope N_scope.
 
 (* What windows.join writes is read back by the Microsoft C runtime argument rules as exactly the
@@ -61,10 +62,10 @@ Print Assumptions C20_jbos_concat.
      no_tail_bs : the line does not end in a backslash;
      no_dd_pair : no double quote that follows an even backslash run inside a quoted region is directly followed
                   by another double quote (the doubled-quote rule of the C runtime never fires).
-   The two excluded classes are exactly the lines on which the real windows.split deviates from the C runtime
-   (exhaustive comparison of the real code with the C runtime loop on all lines up to length 6 / 8 over
-   a, space, tab, double quote, backslash on every run: harness/c20.py stage R/W:split-vs-crt; outside the guard the
-   readers differ on every swept line).  Neither class contains a line windows.join writes
+   The two excluded classes are exactly the lines on which windows.split deviates from the C runtime: the guard
+   is exact (C20_split_dom_exact below; and on the real code, exhaustive comparison with the C runtime loop on
+   all lines up to length 6 / 8 over a, space, tab, double quote, backslash on every run: harness/c20.py stage
+   R/W:split-vs-crt, where outside the guard the readers differ on every line).  Neither class contains a line windows.join writes
    (C20_join_in_split_dom, C20_split_join_pieces), so they are boundaries of the domain of split and not
    violations of the property. *)
 Theorem C20_split_is_crt : forall dd line, split_dom line = true -> split line = msvcrt_parse dd line.
@@ -86,6 +87,25 @@ Print Assumptions C20_crt_variants_agree.
 Theorem C20_split_is_crt_stripped : forall line, split line = msvcrt_parse DDnone (strip_tbs line).
 Proof. exact split_stripped. Qed.
 Print Assumptions C20_split_is_crt_stripped.
+
+(* the guard is exact: split_dom is precisely the set of lines that windows.split reads as all three variants of
+   the C runtime do.  Per class: a line that ends in a backslash is read differently by EVERY variant (the
+   arguments the C runtime returns contain more backslashes), and a line on which the doubled-quote rule fires is
+   read differently by both variants that have the rule (their arguments contain more double quotes) *)
+Theorem C20_split_dom_exact : forall line,
+  split_dom line = true <-> forall dd, split line = msvcrt_parse dd line.
+Proof. exact split_dom_iff. Qed.
+Print Assumptions C20_split_dom_exact.
+
+Theorem C20_split_tail_bs_differs : forall dd line,
+  no_tail_bs line = false -> split line <> msvcrt_parse dd line.
+Proof. exact split_tail_bs_differs. Qed.
+Print Assumptions C20_split_tail_bs_differs.
+
+Theorem C20_split_dd_differs : forall dd line, dd <> DDnone ->
+  no_tail_bs line = true -> no_dd_pair line = false -> split line <> msvcrt_parse dd line.
+Proof. exact split_dd_differs. Qed.
+Print Assumptions C20_split_dd_differs.
 
 (* deviation class 1 (final backslash run), witness C:\dir\ : split gives C:\dir, every variant of the
    C runtime C:\dir\ *)
